@@ -429,10 +429,14 @@ def rule_format_strings(ck: Check, repo: Repo, rid: str = "R6") -> None:
                     vals.append(st.value)
             # ... or the name is one position of the target of a loop over a literal table of tuples: every row's entry counts
             for lp in ast.walk(fn):
-                if isinstance(lp, ast.For) and isinstance(lp.target, ast.Tuple) and isinstance(lp.iter, (ast.Tuple, ast.List)):
+                table = lp.iter if isinstance(lp, ast.For) else None
+                if isinstance(table, ast.Name):
+                    from ..rules import single_assign_value as _sav16
+                    table = _sav16(fn, table.id) or table       # the literal table may have a name of its own
+                if isinstance(lp, ast.For) and isinstance(lp.target, ast.Tuple) and isinstance(table, (ast.Tuple, ast.List)):
                     pos = [i for i, t in enumerate(lp.target.elts) if isinstance(t, ast.Name) and t.id == e.id]
                     if pos:
-                        for row in lp.iter.elts:
+                        for row in table.elts:
                             if isinstance(row, (ast.Tuple, ast.List)) and len(row.elts) == len(lp.target.elts):
                                 vals.append(row.elts[pos[0]])
                             else:
